@@ -341,8 +341,16 @@ def _check(prop, tier, seed, repo, vacuity=True, update_baseline=False):
     # (with a concrete failing input); if it finds nothing the run stays undecided.
     native_fb = None
     run_native = None
+    soft_watch = None
     if undecided and not violations and cfg.get("native_fallback"):
         run_native = cfg["native_fallback"]
+    elif tier != "thorough" and not violations and cfg.get("native_fallback") and _tree_changed(repo):
+        # SOFT WATCH: the tree differs from the one the contracts and watches were written against and nothing failed.
+        # The change may sit in code the property depends on but that no contract or watch names (the interpreter's
+        # helpers, a tracker, another instantiation of a generic function): the bounded enumerations run as well. They can
+        # only ADD a violation (with a concrete input); if they pass the verdict stays what the obligations gave.
+        run_native = cfg["native_fallback"]
+        soft_watch = "tree differs from tree_hash.json: bounded enumerations run although every obligation passed"
     elif tier == "thorough" and not violations and cfg.get("native_thorough"):
         # thorough tier: the bounded enumeration also runs as a (labelled) bounded check of the clauses no contract covers
         run_native = cfg["native_thorough"]
@@ -408,6 +416,7 @@ def _check(prop, tier, seed, repo, vacuity=True, update_baseline=False):
             "known_findings_observed": [kf.get("what") for kf, _ in known],
             "undecided": undecided,
             "native_bounded_fallback": native_fb,
+            "soft_watch": soft_watch,
             "explanation": cfg.get("explanation", ""),
             "clauses_not_decided": cfg.get("not_decided", []),
             # functions the property depends on that are NOT under contract: their text is pinned by a hash; a change makes
@@ -442,6 +451,19 @@ def _rule_summary(log):
 
 
 _NATIVE_CACHE = {}
+
+
+def _tree_changed(repo):
+    """does repo/src differ from the tree recorded in tree_hash.json?"""
+    try:
+        import glob as _glob
+        want = json.load(open(os.path.join(ROOT, "tree_hash.json")))["src_sha"]
+        h = hashlib.sha256()
+        for f in sorted(_glob.glob(os.path.join(repo, "src", "**", "*.rs"), recursive=True)):
+            h.update(os.path.relpath(f, repo).encode()); h.update(b"\0"); h.update(open(f, "rb").read()); h.update(b"\0")
+        return h.hexdigest()[:16] != want
+    except Exception:  # noqa
+        return False
 
 
 def _try_cex(prop, cfg, v, repo):
